@@ -14,6 +14,9 @@ import vassemble  # noqa: E402
 VERIF = os.path.dirname(os.path.dirname(os.path.abspath(__file__)))
 BUILD = os.path.join(VERIF, 'build', 'v')
 
+import enumscan  # noqa: E402
+GENERATED = {'u_c08_o2': enumscan.generate}
+
 DIAG_RE = re.compile(r'^(error|warning|note)(\[[A-Z0-9]+\])?: (.*)$')
 LOC_RE = re.compile(r'^\s*--> (\S+?):(\d+):(\d+)')
 
@@ -22,7 +25,7 @@ def scan_assumptions(path):
     """Mechanical scan of the assembled file for unchecked assumptions."""
     txt = open(path).read()
     res = {}
-    for kw in ('assume(', 'admit(', 'external_body', 'assume_specification', 'external_type_specification', 'uninterp spec fn'):
+    for kw in ('assume(', 'admit(', 'external_body', 'assume_specification', 'external_type_specification', 'uninterp spec fn', 'cfg(feature', 'debug_assert', 'cfg(debug_assertions'):
         res[kw] = len(re.findall(re.escape(kw), txt))
     return res
 
@@ -37,6 +40,18 @@ def run_unit(unit, repo=None, tag=''):
     out_rs = os.path.join(BUILD, f'{unit}{tag}.rs')
     res = {'unit': unit, 'file': out_rs, 'functions': {}, 'errors': [], 'status': 'ok'}
     t0 = time.time()
+    if unit in GENERATED:
+        # unit generated mechanically from /repo by a tool (no hand-written template)
+        try:
+            report = GENERATED[unit](repo or vassemble.REPO, out_rs)
+        except Exception as e:
+            res['status'] = 'undecided'
+            res['reason'] = f'generation: {e}'
+            return res
+        res['extraction'] = report
+        lines = open(out_rs).read().split('\n')
+        linemap = [('gen', unit, i + 1) for i in range(len(lines))]
+        return run_verus(res, out_rs, lines, linemap, t0)
     try:
         a = vassemble.assemble(unit, out_rs, repo or vassemble.REPO)
     except (vassemble.AssembleError, vassemble.ScanError) as e:
@@ -46,6 +61,10 @@ def run_unit(unit, repo=None, tag=''):
     res['extraction'] = a.report
     linemap = [o for _, o in a.out]
     lines = [l for l, _ in a.out]
+    return run_verus(res, out_rs, lines, linemap, t0)
+
+
+def run_verus(res, out_rs, lines, linemap, t0):
     cmd = ['verus', out_rs, '--multiple-errors', '20', '--time-expanded', '--output-json']
     p = subprocess.run(cmd, capture_output=True, text=True)
     res['cmd'] = ' '.join(cmd)
@@ -76,7 +95,6 @@ def run_unit(unit, repo=None, tag=''):
             name = f['function'].split('::', 1)[1] if '::' in f['function'] else f['function']
             res['functions'][name] = {'success': f['success'], 'time_ms': f['time'], 'rlimit': f['rlimit'], 'mode': f.get('mode:')}
     # diagnostics -> errors with origin
-    # function spans in the assembled file: map line -> enclosing fn name (cheap scan)
     fn_at = fn_spans(lines)
     cur = None
     for l in p.stderr.split('\n'):
@@ -97,7 +115,6 @@ def run_unit(unit, repo=None, tag=''):
             first = e['locs'][0]
             e['clause'] = lines[first - 1].strip()[:160] if first - 1 < len(lines) else ''
             e['origin'] = linemap[first - 1] if first - 1 < len(linemap) else None
-            # the function the error belongs to: last loc is normally inside the body / call site
             for ln in reversed(e['locs']):
                 if fn_at.get(ln):
                     e['fn'] = fn_at[ln]
